@@ -15,7 +15,7 @@ RULE = (
     "single-record corruption (delete/add one quality character, drop the '+' line, drop the header's '@', remove "
     "the sequence line, swap two lines) of every record; 'paired' mates missing at the end of R1 or R2, a renamed "
     "mate, an odd interleaved file; each with one core and (sampled) 2-3 real worker processes and chunk sizes "
-    "placing the faulty record in the first/middle/last chunk; 'sim' runs the faulty input under the schedule-owning "
+    "placing the faulty record in the first/middle/last chunk; 'sim' (single-end) and 'simpair' (paired faults) run the faulty input under the schedule-owning "
     "simulator with drawn schedules; 'proc' repeats a sample as real operating-system processes; 'bigtrunc' truncates gzip files of 1500-6000 records (far beyond any read-ahead buffer) so that the reader meets the truncation after chunks were handed out. Oracle for the "
     "INPUT: independent strict 4-line FASTQ parser + zlib stream check + pair/name rules. Malformed => exit status != "
     "0, an error message, termination (no runnable-task deadlock in the simulator, time bound for real runs). Exit "
@@ -465,7 +465,83 @@ def check_proc(case, ctx):
     ctx.nontrivial_case({"container": cont, "cores": case["cores"], "runs": n})
 
 
+# ----------------------------------------------------------------------------- simulator, paired input
+@st.composite
+def simpair_case(draw):
+    r1, r2 = draw(fastq_input(nmax=24, paired=True))
+    n = len(r1)
+    return {"sub": "simpair", "r1": r1, "r2": r2, "k": draw(st.integers(0, n - 1)),
+            "fault": draw(st.sampled_from(["r2-short", "r1-short", "rename", "odd-interleaved", "corrupt-r1", "corrupt-r2"])),
+            "kind": draw(st.sampled_from(KINDS)), "workers": draw(st.sampled_from([2, 3])),
+            "choices": draw(st.lists(st.integers(0, 7), min_size=30, max_size=200)),
+            "policy": draw(st.sampled_from(["uniform", "sticky", "main-slow", "reader-fast", "starve:worker0"])),
+            "cap": draw(st.sampled_from([None, 1, 2])), "chunks": draw(st.sampled_from([2, 3, 5]))}
+
+
+def check_simpair(case, ctx):
+    r1, r2 = case["r1"], case["r2"]
+    n, k, fault = len(r1), case["k"], case["fault"]
+    base = ["-a", ADAPTER, "-A", "TTGGAA"]
+    ok_run = cli.run(base + ["-o", "o1.fastq", "-p", "o2.fastq", "i1.fastq", "i2.fastq"],
+                     {"i1.fastq": cli.fastq(r1), "i2.fastq": cli.fastq(r2)})
+    if ok_run.exit != 0:
+        raise Violation(f"fault-free paired run failed: {ok_run.errors} {ok_run.tb}")
+    full1, full2 = ok_run.records("o1.fastq"), ok_run.records("o2.fastq")
+    interleaved = fault == "odd-interleaved"
+    if fault == "r2-short":
+        files = {"i1.fastq": cli.fastq(r1), "i2.fastq": cli.fastq(r2[: max(0, n - 1 - k % 3)])}
+    elif fault == "r1-short":
+        files = {"i1.fastq": cli.fastq(r1[: max(0, n - 1 - k % 3)]), "i2.fastq": cli.fastq(r2)}
+    elif fault == "rename":
+        rn = [list(x) for x in r2]
+        rn[k][0] = "other" + rn[k][0]
+        files = {"i1.fastq": cli.fastq(r1), "i2.fastq": cli.fastq(rn)}
+    elif fault == "odd-interleaved":
+        il = [x for p in zip(r1, r2) for x in p]
+        files = {"i.fastq": cli.fastq(il[:-1])}
+    elif fault == "corrupt-r1":
+        files = {"i1.fastq": corrupt(r1, k, case["kind"]), "i2.fastq": cli.fastq(r2)}
+    else:
+        files = {"i1.fastq": cli.fastq(r1), "i2.fastq": corrupt(r2, k, case["kind"])}
+    rs = max(len(r[0]) + 2 * len(r[1]) + 7 for r in r1 + r2)
+    total = sum(len(r[0]) + 2 * len(r[1]) + 7 for r in r1)
+    buffer = max(3 * rs + 16, total // case["chunks"] + 1)
+    args = ["-j", str(case["workers"]), "--buffer-size", str(buffer)] + base
+    if interleaved:
+        args += ["--interleaved", "-o", "o.fastq", "i.fastq"]
+    else:
+        args += ["-o", "o1.fastq", "-p", "o2.fastq", "i1.fastq", "i2.fastq"]
+    chooser = sim.make_chooser(case["choices"], case["policy"])
+    r = cli.run(args, files, sim=lambda m: sim.run_simulated(m, chooser, cap=case["cap"]))
+    what = f"paired fault '{fault}' (record {k}) under simulated schedule (policy={case['policy']}, cap={case['cap']})"
+    if r.sim.deadlock:
+        raise Violation(f"{what}: deadlock: {r.sim.deadlock} ({args})", tag="deadlock")
+    if r.exit == 0:
+        raise Violation(f"{what}: malformed paired input but exit status 0 ({args})", tag="silent")
+    if r.exit != "crash" and not r.errors:
+        raise Violation(f"{what}: exit status {r.exit} but no error message ({args})", tag="no-message")
+    if r.exit == "crash":
+        ctx.label("malformed->traceback")
+    outs = [("o.fastq", [x for p in zip(full1, full2) for x in p])] if interleaved else [("o1.fastq", full1), ("o2.fastq", full2)]
+    for nme, full in outs:
+        raw = r.files.get(nme)
+        if not raw:
+            continue
+        try:
+            got = cli.parse_records(raw)[1]
+        except cli.ParseError as e:
+            raise Violation(f"{what}: {nme} written before the error is not made of complete records: {e} ({args})",
+                            tag="partial-record")
+        if [tuple(x) for x in got] != [tuple(x) for x in full[: len(got)]]:
+            raise Violation(f"{what}: {nme} is not a prefix of the fault-free output ({args})", observed=got[-2:],
+                            expected=full[: len(got)][-2:], tag="not-prefix")
+    ctx.label("fault:" + fault)
+    ctx.label("policy:" + case["policy"])
+    ctx.nontrivial_case({"args": args, "exit": r.exit, "message": r.errors[:1]})
+
+
 SUBS = {
+    "simpair": Sub(strategy=lambda tier: simpair_case(), check=check_simpair),
     "trunc": Sub(strategy=lambda tier: trunc_case("trunc"), check=check_trunc),
     "corrupt": Sub(strategy=lambda tier: trunc_case("corrupt"), check=check_corrupt),
     "paired": Sub(strategy=lambda tier: paired_case(), check=check_paired),
@@ -480,12 +556,14 @@ def plan(tier):
         return [{"sub": "trunc", "kind": "hyp", "examples": 6} for _ in range(5)] + \
                [{"sub": "corrupt", "kind": "hyp", "examples": 8} for _ in range(3)] + \
                [{"sub": "paired", "kind": "hyp", "examples": 25} for _ in range(2)] + \
-               [{"sub": "sim", "kind": "hyp", "examples": 300} for _ in range(4)] + \
+               [{"sub": "sim", "kind": "hyp", "examples": 300} for _ in range(3)] + \
+               [{"sub": "simpair", "kind": "hyp", "examples": 150} for _ in range(2)] + \
                [{"sub": "proc", "kind": "hyp", "examples": 6} for _ in range(2)] + \
                [{"sub": "bigtrunc", "kind": "hyp", "examples": 6} for _ in range(3)]
     return [{"sub": "trunc", "kind": "hyp", "examples": 150} for _ in range(6)] + \
            [{"sub": "corrupt", "kind": "hyp", "examples": 200} for _ in range(3)] + \
            [{"sub": "paired", "kind": "hyp", "examples": 600} for _ in range(2)] + \
-           [{"sub": "sim", "kind": "hyp", "examples": 8000} for _ in range(4)] + \
+           [{"sub": "sim", "kind": "hyp", "examples": 8000} for _ in range(3)] + \
+           [{"sub": "simpair", "kind": "hyp", "examples": 4000} for _ in range(2)] + \
            [{"sub": "proc", "kind": "hyp", "examples": 120} for _ in range(1)] + \
            [{"sub": "bigtrunc", "kind": "hyp", "examples": 150} for _ in range(3)]
